@@ -166,6 +166,8 @@ private def jRet : RetKind → Json
   | .streamBytes => Json.mkObj [("k", Json.str "streamBytes")]
   | .streamNdjson => Json.mkObj [("k", Json.str "streamNdjson")]
   | .streamSse => Json.mkObj [("k", Json.str "streamSse")]
+  | .streamEnd => Json.mkObj [("k", Json.str "streamEnd")]
+  | .yieldOnce k => Json.mkObj [("k", Json.str "yieldOnce"), ("item", jRet k)]
 
 private def jWhy : RaiseWhy → String
   | .transport => "transport"
@@ -196,6 +198,8 @@ private def jAction : Action → Json
   | .retNone => Json.str "retNone"
   | .retStrategy => Json.str "retStrategy"
   | .retSecondary k => Json.mkObj [("retSecondary", jRet k)]
+  | .retStreamEnd => Json.str "retStreamEnd"
+  | .yieldSecondary k => Json.mkObj [("yieldSecondary", jRet k)]
   | .raiseAlias c => Json.mkObj [("raiseAlias", jnat c)]
   | .raiseDefault => Json.str "raiseDefault"
   | .raiseUnhandled => Json.str "raiseUnhandled"
